@@ -73,7 +73,7 @@ Proof.
     by (intros r tx d H; apply inflight_progress; exact H).
   destruct (step cfg s e) as [s' o]. destruct L as (_ & _ & W). destruct C as [C _].
   assert (Hnd' : NoDup (pending s' ++ completed o)) by (eapply Permutation_NoDup; [symmetry; exact C|exact Hnd]).
-  destruct W as [W|(r & tx & d & W & Hp' & _ & Hps & Hc)].
+  destruct W as [W|(r & tx & d & W & Hp' & _ & Hps & Hc & _)].
   - rewrite scan_no_wire by exact W.
     destruct (ph s) eqn:Eph; cbn [wired];
     try (destruct (ph s') eqn:Eph'; cbn [wired]; try reflexivity;
@@ -124,3 +124,43 @@ Proof.
 Qed.
 
 End Alt.
+
+(* ---------- every request on the wire carries the transaction id it was stamped with ---------- *)
+Lemma no_wire : forall o, wire_ids o = [] -> forall tx id, ~ In (OWire tx id) o.
+Proof.
+  induction o as [|x o IH]; intros Hw tx id H; [destruct H|]. rewrite wire_ids_cons in Hw.
+  destruct H as [->|H]; [discriminate|]. destruct x; cbn [app] in Hw; try discriminate; exact (IH Hw tx id H).
+Qed.
+
+Section Stamped.
+Variable cfg : config.
+
+Lemma step_wire_src s e tx id : In (OWire tx id) (snd (step cfg s e)) ->
+  In (OStamp tx id) (snd (step cfg s e)) \/ exists r u, ph s = PWriting r tx u /\ rq_id r = id.
+Proof.
+  pose proof (step_laws cfg s e) as L. destruct (step cfg s e) as [s' o]. cbn [snd]. destruct L as (_ & _ & W). intros H.
+  destruct W as [W|(r & t & d & _ & _ & _ & Hps & _ & Hall & Hst)]; [exfalso; exact (no_wire o W tx id H)|].
+  destruct (Hall tx id H) as [-> ->]. destruct Hps as [Hi|[u Hw]]; [left; exact (Hst Hi)|right; eauto].
+Qed.
+
+Theorem run_wire_stamped : forall es s o0,
+  (forall r tx u, ph s = PWriting r tx u -> In (OStamp tx (rq_id r)) o0) ->
+  (forall tx id, In (OWire tx id) o0 -> In (OStamp tx id) o0) ->
+  forall tx id, In (OWire tx id) (o0 ++ snd (run cfg s es)) -> In (OStamp tx id) (o0 ++ snd (run cfg s es)).
+Proof.
+  induction es as [|e es IH]; intros s o0 Hw H0 tx id; cbn [run].
+  - cbn [snd]. rewrite app_nil_r. apply H0.
+  - pose proof (step_wire_src s e) as Hsrc. pose proof (step_entersw cfg s e) as Hent.
+    destruct (step cfg s e) as [s1 o1]. cbn [snd] in Hsrc.
+    specialize (IH s1 (o0 ++ o1)). destruct (run cfg s1 es) as [s2 o2]. cbn [snd] in *. rewrite app_assoc. apply IH.
+    + intros r t u Hp. apply in_or_app. destruct (Hent r t u Hp) as [Hs|Hs]; [left; exact (Hw r t u Hs)|right; exact Hs].
+    + intros t i Hin. apply in_app_or in Hin. apply in_or_app. destruct Hin as [Hin|Hin]; [left; exact (H0 t i Hin)|].
+      destruct (Hsrc t i Hin) as [Hs|(r & u & Hp & <-)]; [right; exact Hs|left; exact (Hw r t u Hp)].
+Qed.
+
+Theorem wire_is_stamped hn mt rmin rmax es tx id :
+  In (OWire tx id) (snd (run cfg (init hn mt rmin rmax) es)) -> In (OStamp tx id) (snd (run cfg (init hn mt rmin rmax) es)).
+Proof.
+  apply (run_wire_stamped es (init hn mt rmin rmax) []); [intros r t u H; discriminate H|intros t i []].
+Qed.
+End Stamped.
